@@ -459,6 +459,28 @@ def check(ctx: Ctx) -> list[RuleResult]:
         for a in ("_msgs_", "_msgz_"):
             if a in txt:
                 cleaned.add(a)
+        # the per-code store holds the *latest* message of a code, whoever it was about: the entry may only be removed when it is
+        # this very message - a sibling zone's (or the system's) newer message of the same code must survive the expiry of this one
+        if "_msgs_" in txt:
+            tgt0 = n.targets[0] if isinstance(n, ast.Delete) else n.func.value
+            cont = tgt0
+            while isinstance(cont, ast.Subscript):
+                cont = cont.value
+            ident = False
+            cur0 = getattr(n, "parent", None)
+            while cur0 is not None and cur0 is not lp:
+                if isinstance(cur0, ast.If) and any(id(n) == id(x) for st in cur0.body for x in ast.walk(st)):
+                    tt = cur0.test
+                    reads_msg = any(isinstance(x, ast.Name) and x.id == "msg" and not isinstance(getattr(x, "parent", None), ast.Attribute) for x in ast.walk(tt))
+                    if reads_msg and norm(cont) in norm(tt):
+                        ident = True
+                cur0 = getattr(cur0, "parent", None)
+            r8.instances += 1
+            r8.nontrivial += 1
+            if ident:
+                r8.ok({"deletion": txt[:70], "only_if_the_entry_is_this_message": True})
+            else:
+                r8.fail(f"{dm.short}:per-code-entry-removed-by-key", dm.loc(n), f"`{txt[:70]}` removes the entity's latest message of the code whatever message it is: when one zone's reading expires, a sibling's (or the system's) newer, live message of the same code is deleted with it and its attribute reads as unknown")
         if isinstance(n, ast.Call):  # .pop(key, default) cannot raise
             if len(n.args) >= 2:
                 r8.ok({"deletion": txt[:70], "safe_because": "pop() with a default"})
@@ -492,6 +514,59 @@ def check(ctx: Ctx) -> list[RuleResult]:
     else:
         r8.fail(f"{dm.short}:store-not-cleaned", dm.loc(), f"_delete_msg no longer removes the message from {sorted({'_msgs_', '_msgz_'} - cleaned)}: readers of that store keep reporting the expired value")
     out.append(r8)
+
+    # ---- R9 ---------------------------------------------------------------------------
+    # "regardless of what traffic for other zones is interleaved": an array message is filed only with the zones it has an element
+    # for - the routing of a list payload is driven by the payload's elements, not by the system's list of zones (a zone the array
+    # does not mention would have its own, newer per-zone message displaced by an array that says nothing about it)
+    r9 = RuleResult("R9", "array messages are routed by their elements", "in MultiZone._handle_msg every delivery under `isinstance(msg.payload, list)` selects the zone from an element of msg.payload", min_instances=1)
+    mz = repo.func("ramses_rf.system.heat.MultiZone._handle_msg")
+    n9 = 0
+    for n in own_nodes(mz.node):
+        if not (isinstance(n, ast.If) and any(isinstance(c, ast.Call) and norm(c.func) == "isinstance" and len(c.args) == 2 and norm(c.args[0]) == "msg.payload" and "list" in norm(c.args[1]) for c in ast.walk(n.test))):
+            continue
+        for st in n.body:
+            for c in ast.walk(st):
+                if not isinstance(c, ast.Call):
+                    continue
+                routed = (isinstance(c.func, ast.Attribute) and c.func.attr == "_handle_msg") or (isinstance(c.func, ast.Name) and c.func.id in mz.nested and any(isinstance(x, ast.Attribute) and x.attr == "_handle_msg" for x in ast.walk(mz.nested[c.func.id].node)))
+                if not routed or not any(isinstance(a, ast.Name) and a.id == "msg" for a in c.args):
+                    continue
+                n9 += 1
+                r9.instances += 1
+                r9.nontrivial += 1
+                sel = [a for a in c.args if not (isinstance(a, ast.Name) and a.id == "msg")] + ([c.func.value] if isinstance(c.func, ast.Attribute) else [])
+                d: set[str] = set()
+
+                def from_payload(e: ast.AST) -> bool:
+                    """The expression reads msg.payload, or a variable of an enclosing loop (inside this branch) that iterates it."""
+                    if "msg.payload" in norm(e):
+                        return True
+                    for x in ast.walk(e):
+                        if isinstance(x, ast.Name):
+                            p9 = getattr(c, "parent", None)
+                            while p9 is not None and p9 is not n:
+                                if isinstance(p9, (ast.For, ast.AsyncFor)) and any(isinstance(t, ast.Name) and t.id == x.id for t in ast.walk(p9.target)):
+                                    d.add(norm(p9.iter))
+                                    if "msg.payload" in norm(p9.iter):
+                                        return True
+                                    break
+                                if isinstance(p9, (ast.ListComp, ast.GeneratorExp, ast.SetComp, ast.DictComp)):
+                                    for g9 in p9.generators:
+                                        if any(isinstance(t, ast.Name) and t.id == x.id for t in ast.walk(g9.target)):
+                                            d.add(norm(g9.iter))
+                                            if "msg.payload" in norm(g9.iter):
+                                                return True
+                                p9 = getattr(p9, "parent", None)
+                    return False
+
+                if any(from_payload(e) for e in sel):
+                    r9.ok({"delivery": norm(c)[:70], "zone_selected_from": "an element of msg.payload"})
+                else:
+                    r9.fail(f"{mz.short}:array-routed-to-unlisted-zones", mz.loc(c), f"`{norm(c)[:70]}` files an array message with zones chosen from {sorted(d)[:4] or [norm(e)[:30] for e in sel]}, not from the array's own elements: a zone the array does not list has its newer per-zone message displaced and reads as unknown")
+    if n9 < 1:
+        raise AnalysisError("MultiZone._handle_msg: no delivery of a list payload found")
+    out.append(r9)
     return out
 
 
